@@ -39,11 +39,11 @@ def run(ctx):
     else:
         plan = {"mc": [(n, c, PROPS, dict(ids=3, family=FAM, horizon=20, maxep=1, maxins=4, ticks=(10,), delays=(0,), ttls=(10,), timeout=3000))
                        for n, c in (("adm_d1", d1), ("adm_d2", d2), ("adm_r2", r2), ("adm_dd", dd))],
-                # measured: 190k / 55k / 578k edge schedules; a seeded sample of 60k of each is executed on both backends
+                # measured: 190k / 55k / 578k edge schedules; a seeded sample of 40k of each is executed on both backends
                 "gen": [("adm_drop", d2, dict(ids=3, family=("admission", "lease"), horizon=10, maxep=1, maxins=4, pick="insertion", ticks=(10,), delays=(0,), ttls=(10,)), 1),
                         ("adm_rej", r2, dict(ids=3, family=("admission", "lease"), horizon=10, maxep=1, maxins=4, pick="insertion", ticks=(10,), delays=(0,), ttls=(10,)), 1),
-                        ("adm_dd", dd, dict(ids=3, family=("admission", "lease", "read"), horizon=20, maxep=1, maxins=3, pick="insertion", ticks=(10,), delays=(0,), ttls=(10,)), 1)],
-                "gen_cap": 60000,
+                        ("adm_dd", dd, dict(ids=3, family=("admission", "lease", "read"), horizon=10, maxep=1, maxins=3, pick="insertion", ticks=(10,), delays=(0,), ttls=(10,)), 1)],
+                "gen_cap": 40000,   # first complete run: 68 min with a cap of 60000 on a busy machine
                 "drv": [("adm", "admission", 4000, 90, {})]}
     l1_part(ctx)
     q.run_plan(ctx, plan, RULE, assumptions=["token bucket: one token of slack on refusals for the implementation's floating-point refill (the statement is an upper bound)",
